@@ -45,10 +45,11 @@ func (e *Enc) inferVariant(fr *Frame, li *loopInfo) (variant, bool) {
 		if be, ok := fs.Cond.(*ast.BinaryExpr); ok {
 			var txt string
 			switch be.Op {
+			// measured in int64 so that an unsigned difference cannot underflow when the cursor jumps past the bound
 			case token.LSS, token.LEQ:
-				txt = fmt.Sprintf("(%s) - (%s)", types.ExprString(be.Y), types.ExprString(be.X))
+				txt = fmt.Sprintf("int64(%s) - int64(%s)", types.ExprString(be.Y), types.ExprString(be.X))
 			case token.GTR, token.GEQ:
-				txt = fmt.Sprintf("(%s) - (%s)", types.ExprString(be.X), types.ExprString(be.Y))
+				txt = fmt.Sprintf("int64(%s) - int64(%s)", types.ExprString(be.X), types.ExprString(be.Y))
 			}
 			if txt != "" {
 				if f, err := parseFormula(txt); err == nil {
